@@ -134,10 +134,13 @@ func runC16(c *core.Ctx) {
 			sess = samlsp.SessionFromContext(r.Context())
 			w.WriteHeader(204)
 		}))
-		r := httptest.NewRequest("GET", c16URL+"/protected", nil)
+		r := httptest.NewRequest(c16Shape.method, c16URL+c16Shape.path, nil)
 		r.AddCookie(&http.Cookie{Name: cookieName, Value: value})
 		for _, e := range extra {
 			r.AddCookie(e)
+		}
+		for k, v := range c16Shape.hdr {
+			r.Header.Set(k, v)
 		}
 		w := httptest.NewRecorder()
 		h.ServeHTTP(w, r)
@@ -408,6 +411,48 @@ func runC16(c *core.Ctx) {
 			}
 		}
 
+		// the same tokens presented with requests of other shapes: method, path and headers decide nothing; whether the handler runs is what
+		// it is for the plain GET
+		c.Group("token-catalogue-x-request-shapes")
+		for _, tk := range toks {
+			for _, ck := range clocks {
+				if ck.name != "issue" && ck.ok != core.MustReject {
+					continue
+				}
+				for si, sh := range c16Shapes {
+					if !c.Thorough() && di >= 2 && si%3 != 0 {
+						continue
+					}
+					tk, ck, sh := tk, ck, sh
+					key := fmt.Sprintf("dep#%d[%s]/token=%s/clock=%s/request=%s", di, dep, tk.name, ck.name, sh.name)
+					c.Case(key, func(t *core.T) {
+						t.NonTrivial()
+						pinAll(ck.at)
+						defer pinAll(t0)
+						var ran, ranGET bool
+						_, p := guard(func() error {
+							ranGET, _, _ = present(m, cookieName, tk.value)
+							c16Shape = sh
+							defer func() { c16Shape = c16Shapes[0] }()
+							ran, _, _ = present(m, cookieName, tk.value)
+							return nil
+						})
+						t.Impl(2)
+						if p != "" {
+							t.Fail("C16/panic@"+p[strings.LastIndex(p, "@")+1:], "middleware panicked on token %s with a %s request: %s", tk.name, sh.name, p)
+							return
+						}
+						t.Compared()
+						t.Outcome(fmt.Sprintf("ran=%v", ran))
+						if ran != ranGET {
+							t.Fail("C16/request-shape-decides/"+sh.name, "token %q at clock %s: handler ran=%v for a %s request, %v for a plain GET", tk.name, ck.name, ran, sh.name, ranGET)
+							t.Input("token", tk.value)
+						}
+					})
+				}
+			}
+		}
+
 		// byte-level signature edits at issue time
 		if di < 2 || c.Thorough() {
 			c.Group("signature-bytes")
@@ -516,6 +561,12 @@ func c16Attributes(c *core.Ctx, present func(m *samlsp.Middleware, cookieName, v
 		{"no-subject", &saml.Assertion{AttributeStatements: []saml.AttributeStatement{{Attributes: []saml.Attribute{{Name: "groups", Values: av("users")}}}}}},
 		{"empty-valued", &saml.Assertion{Subject: sub, AttributeStatements: []saml.AttributeStatement{{Attributes: []saml.Attribute{{Name: "groups", Values: av("")}, {Name: "novalues"}}}}}},
 		{"no-attributes", &saml.Assertion{Subject: sub}},
+		// a Subject that carries no identifier of its own: the NameID inside a SubjectConfirmation names the confirming party, not the subject
+		{"subject-without-nameid+confirmation-nameid", &saml.Assertion{Subject: &saml.Subject{SubjectConfirmations: []saml.SubjectConfirmation{{Method: "urn:oasis:names:tc:SAML:2.0:cm:sender-vouches", NameID: &saml.NameID{Value: "https://gateway.example.com/attesting-entity"}}}}, AttributeStatements: []saml.AttributeStatement{{Attributes: []saml.Attribute{{Name: "groups", Values: av("users")}}}}}},
+		{"subject-nameid+confirmation-nameid", &saml.Assertion{Subject: &saml.Subject{NameID: &saml.NameID{Value: "alice@example.com"}, SubjectConfirmations: []saml.SubjectConfirmation{{Method: "urn:oasis:names:tc:SAML:2.0:cm:bearer", NameID: &saml.NameID{Value: "mallory@example.com"}}}}}},
+		{"subject-empty", &saml.Assertion{Subject: &saml.Subject{}, AttributeStatements: []saml.AttributeStatement{{Attributes: []saml.Attribute{{Name: "uid", Values: av("bob")}, {Name: "sub", Values: av("mallory")}, {Name: "subject", Values: av("mallory")}}}}}},
+		{"subject-nameid-empty-value", &saml.Assertion{Subject: &saml.Subject{NameID: &saml.NameID{Value: "", SPProvidedID: "carol", NameQualifier: "dave"}}, Issuer: saml.Issuer{Value: "https://idp.example.com/saml/metadata"}}},
+		{"subject-nameid-qualifiers", &saml.Assertion{Subject: &saml.Subject{NameID: &saml.NameID{Value: "alice@example.com", SPProvidedID: "carol", NameQualifier: "dave", SPNameQualifier: "erin", Format: "urn:oasis:names:tc:SAML:2.0:nameid-format:persistent"}}}},
 		{"two-authn-statements", &saml.Assertion{Subject: sub, AuthnStatements: []saml.AuthnStatement{{SessionIndex: "i1"}, {SessionIndex: "i2"}}, AttributeStatements: []saml.AttributeStatement{{Attributes: []saml.Attribute{{Name: "groups", Values: av("users")}}}}}},
 	}
 	gates := []struct{ n, v string }{{"groups", "admins"}, {"groups", "users"}, {"groups", "ops"}, {"groups", ""}, {"role", "owner"}, {"role", "viewer"}, {"uid", "alice"}, {"urn:oid:1", "alice"}, {"missing", "x"}, {"groups", "admin"}, {"SessionIndex", "i2"},
@@ -868,6 +919,21 @@ func c16CrossDeployment(c *core.Ctx, present func(m *samlsp.Middleware, cookieNa
 		}
 	}
 }
+
+// c16ReqShape is the HTTP request a token is presented with.
+type c16ReqShape struct {
+	name, method, path string
+	hdr                map[string]string
+}
+
+var c16Shapes = []c16ReqShape{{"GET", "GET", "/protected", nil}, {"OPTIONS", "OPTIONS", "/protected", nil}, {"HEAD", "HEAD", "/protected", nil}, {"POST", "POST", "/protected", nil},
+	{"PUT", "PUT", "/protected", nil}, {"DELETE", "DELETE", "/protected", nil}, {"PATCH", "PATCH", "/protected", nil}, {"TRACE", "TRACE", "/protected", nil},
+	{"OPTIONS-preflight", "OPTIONS", "/protected", map[string]string{"Origin": "https://app.example.org", "Access-Control-Request-Method": "POST"}},
+	{"GET-root", "GET", "/", nil}, {"GET-query", "GET", "/protected?SAMLResponse=x&RelayState=y", nil}, {"GET-xhr", "GET", "/protected", map[string]string{"X-Requested-With": "XMLHttpRequest", "Accept": "application/json"}},
+	{"GET-upgrade", "GET", "/protected", map[string]string{"Connection": "Upgrade", "Upgrade": "websocket"}}, {"GET-bearer", "GET", "/protected", map[string]string{"Authorization": "Bearer x"}},
+	{"GET-forwarded", "GET", "/protected", map[string]string{"X-Forwarded-For": "127.0.0.1", "X-Forwarded-User": "admin", "X-Remote-User": "admin"}}}
+
+var c16Shape = c16Shapes[0]
 
 func c16Assertion() *saml.Assertion {
 	return &saml.Assertion{Subject: &saml.Subject{NameID: &saml.NameID{Value: "alice@example.com"}},
